@@ -737,19 +737,19 @@ def check(run: Run):
             # alignments of 6 columns, row x of 4 residues: every state, a seeded sample of the other histories
             ("aln", "MC_Annotation_aln_thorough.cfg", "aln", float(env("VERIF_C04_EDGES", "0.1")), 0),
             # P = 6, views of copies / feature slices explored as well: every state, seeded sample of the other histories and of the windows
-            ("views", "MC_Annotation_thorough.cfg", "seq", float(env("VERIF_C04_EDGES", "0.07")), float(env("VERIF_C04_WINDOWS", "0.1"))),
+            ("views", "MC_Annotation_thorough.cfg", "seq", float(env("VERIF_C04_EDGES", "0.05")), float(env("VERIF_C04_WINDOWS", "0.07"))),
             # every interleaving of 4 calls: a seeded sample of the histories (all of depth <= 3 are in the quick configuration)
-            ("hist", "MC_Annotation_hist_thorough.cfg", "hist", float(env("VERIF_C04_HIST", "0.1")), 0),
+            ("hist", "MC_Annotation_hist_thorough.cfg", "hist", float(env("VERIF_C04_HIST", "0.07")), 0),
         ]
     # share of the states on which the feature algebra / masking is exercised as well
-    alg_rates = {"views": float(env("VERIF_C04_ALGEBRA", "0.12" if tier == "quick" else "0.1")), "small": 1.0,
-                 "aln": float(env("VERIF_C04_ALGEBRA", "0.25" if tier == "quick" else "0.3"))}
+    alg_rates = {"views": float(env("VERIF_C04_ALGEBRA", "0.12" if tier == "quick" else "0.05")), "small": float(env("VERIF_C04_ALGEBRA", "0.5")),
+                 "aln": float(env("VERIF_C04_ALGEBRA", "0.25" if tier == "quick" else "0.15"))}
     only = env("VERIF_C04_STAGES")  # debugging aid
     if only:
         plan = [p for p in plan if p[0] in only.split(",")]
     with Scratch("C04") as scratch:
         # all model-checking runs start now (they share the TLC worker budget) and are replayed in order as they finish
-        share = ({"small": 2, "views": 3, "aln": 2, "hist": 1} if tier == "thorough" else {"views": 4, "aln": 2, "hist": 2}) if len(plan) >= 3 else {}
+        share = ({"small": 1, "views": 3, "aln": 3, "hist": 1} if tier == "thorough" else {"views": 4, "aln": 2, "hist": 2}) if len(plan) >= 3 else {}
         jobs = [TlcJob(scratch, name, cfg, level, share.get(name, max(2, NPROC // len(plan)))) for name, cfg, level, _, _ in plan]
         try:
             for job, (_, _, level, er, wr) in zip(jobs, plan):
@@ -778,13 +778,13 @@ def check(run: Run):
         "x strand x every view aln[a:b] / rc(): alignment feature columns, rows of its slice, projection onto the other row; the same spans "
         "as an alignment-level feature. "
         "quick: P=5 / U=3,L=4, seeded 6% sample of the non-chain transitions and windows; thorough: P=5 with every transition and "
-        "window, P=6 with MaxCopy=1 (7% of non-chain transitions, 10% of windows), U=4,L=6 (10% of non-chain transitions). "
+        "window, P=6 with MaxCopy=1 (5% of non-chain transitions, 7% of windows), U=4,L=6 (10% of non-chain transitions). "
         "Feature algebra (Algebra record of every state): as_one_span, shadow, without_lost_spans, get_slice(complete=True), union, "
-        "with_masked_annotations (3 biotype sets x shadow) on the same states (quick 12% of them, thorough all of P=5 and 10% of P=6); "
+        "with_masked_annotations (3 biotype sets x shadow) on the same states (quick 12% of them, thorough half of P=5 and 5% of P=6); "
         "alignments: as_one_span / get_slice(allow_gaps=True) and Alignment.with_masked_annotations. "
         "Order of events (AnnotationHistory.tla): every history of MaxDepth calls, each on any object made so far (slice head/tail/mid, "
         "rc, copy, degap, to_rna, add_feature of the first position / of the rest on either strand, at most 2 adds), P=5; after each "
-        "history every object is asked what it sees (quick: depth 3, 25% of the histories; thorough: depth 4, 10%). "
+        "history every object is asked what it sees (quick: depth 3, 25% of the histories; thorough: depth 4, 7%). "
         "distinct_nontrivial = distinct (universe or history, view, feature) whose feature is only partly retained by the view and whose "
         "slice (string / alignment rows) was compared and agreed."
     )
